@@ -64,6 +64,23 @@ var GNPool = []GNPoolEntry{
 	}},
 	{"dns-ip6-arpa-short", func() *der.Node { return GNDNS("8.b.d.0.1.0.0.2.ip6.arpa") }},
 	{"dns-arpa-other-zone", func() *der.Node { return GNDNS("home.arpa") }},
+	// well-formed reverse names of the WRONG address class for their zone
+	{"dns-ip6-arpa-v4-mapped", func() *der.Node {
+		return GNDNS("8.0.8.0.8.0.8.0.f.f.f.f.0.0.0.0.0.0.0.0.0.0.0.0.0.0.0.0.0.0.0.0.ip6.arpa")
+	}},
+	{"dns-ip6-arpa-v4-mapped-reserved", func() *der.Node {
+		return GNDNS("1.0.0.0.0.0.0.a.f.f.f.f.0.0.0.0.0.0.0.0.0.0.0.0.0.0.0.0.0.0.0.0.ip6.arpa")
+	}},
+	{"dns-in-addr-arpa-v6-labels", func() *der.Node { return GNDNS("1.1.168.::2.in-addr.arpa") }},
+	{"dns-in-addr-arpa-hex-labels", func() *der.Node { return GNDNS("a.b.c.d.in-addr.arpa") }},
+	{"dns-in-addr-arpa-256", func() *der.Node { return GNDNS("256.1.1.10.in-addr.arpa") }},
+	{"dns-in-addr-arpa-5-labels", func() *der.Node { return GNDNS("5.4.3.2.10.in-addr.arpa") }},
+	{"dns-ip6-arpa-33-nibbles", func() *der.Node {
+		return GNDNS("0.1.0.0.0.0.0.0.0.0.0.0.0.0.0.0.0.0.0.0.0.0.0.0.0.8.b.d.0.1.0.0.2.ip6.arpa")
+	}},
+	{"dns-ip6-arpa-two-char-nibble", func() *der.Node {
+		return GNDNS("10.0.0.0.0.0.0.0.0.0.0.0.0.0.0.0.0.0.0.0.0.0.0.0.8.b.d.0.1.0.0.2.ip6.arpa")
+	}},
 	// GeneralName entries of types the profile does not define: the parser skips them, the lints that walk the raw
 	// extension themselves must not stop at them
 	{"gn-high-tag-31", func() *der.Node { return der.CtxPrim(31, []byte{0}) }},
